@@ -200,7 +200,7 @@ inductive Cond
   | lastEq                                   -- `self._last_code == code` (IRCode.__eq__)
   | not (c : Cond)
   | nbitsNe0 (a : WExp)                      -- `bool(IntegerWrapper)`
-deriving Repr
+deriving Repr, DecidableEq
 
 def evalCond (env : Env) (lastEq : Bool) : Cond → Except PyErr Bool
   | .cmp op a b => do let x ← eval env a; let y ← eval env b; pure (cmpVal op x.v y.v)
